@@ -601,6 +601,11 @@ func genLexSpec(r *rng, o lexGenOpts) *lspec {
 		return items
 	}
 	s.items = append(s.items, genRules(false)...)
+	if o.epsRules && o.accum && r.chance(1, 2) {
+		// an accumulating fragment that can match the empty string
+		body := lterm{re: &lre{kind: 1, class: &classExpr{items: [][2]int{{'a', 'c'}, {' ', ' '}}}}, card: "*"}
+		s.items = append(s.items, litem{rule: &lrule{frag: true, alts: [][]lterm{{body}}}})
+	}
 	for _, mn := range modeNames {
 		m := &lmode{name: mn, items: genRules(true)}
 		// make sure the mode can be left
